@@ -367,6 +367,39 @@ fn record_laws(r: &[(String, RV)]) -> Vec<Law> {
     laws
 }
 
+/// Fractional indices: the statement fixes no rounding mode, but an index strictly between two valid
+/// positions denotes one of them - the result is the element at one of the two adjacent integer
+/// indices (never null, never another element), and every index beyond the ends yields null.
+fn check_fractional_index(ctx: &Ctx, sess: &mut Session, seq: &[RV], var: &str, subject_src: &str) {
+    let n = seq.len() as i64;
+    let ks: Vec<i64> = if n <= 8 { (-n - 2..=n + 1).collect() } else { vec![-n - 1, -n, -2, -1, 0, 1, n - 2, n - 1, n] };
+    for k in ks {
+        for frac in [0.25, 0.5, 0.75] {
+            let i = k as f64 + frac; // strictly between k and k + 1
+            let prog = format!("{}[{}]", var, if i < 0.0 { format!("({})", i) } else { format!("{}", i) });
+            let out = sess.run(&prog);
+            ctx.count(1);
+            ctx.outcome("index-fractional");
+            let (lo, hi) = (index_ref(seq, k), index_ref(seq, k + 1));
+            // k = -1: the neighbours are the last and the first position
+            let ok = match &out {
+                Outcome::Ok(c) => c == &lo.canon() || c == &hi.canon(),
+                _ => false,
+            };
+            if !ok {
+                ctx.violation(Violation {
+                    kind: "index-fractional".into(),
+                    class: subject_class(subject_src),
+                    input: format!("{} ; {}", subject_src, prog),
+                    expected: format!("{} or {} (the elements at {} and {})", lo.canon(), hi.canon(), k, k + 1),
+                    observed: out.cmp_key(),
+                    case: json!({"subject": subject_src, "program": prog}),
+                });
+            }
+        }
+    }
+}
+
 fn run_laws(ctx: &Ctx, sess: &mut Session, subject_src: &str, laws: Vec<Law>) {
     for law in laws {
         let out = sess.run(&law.program);
@@ -453,6 +486,7 @@ pub fn run(ctx: &Ctx, replay: Option<&J>) -> i32 {
         ctx.nontrivial(&lsrc);
         run_laws(ctx, &mut sess, &lsrc, list_laws(l));
         check_sort(ctx, &mut sess, l, &lsrc);
+        check_fractional_index(ctx, &mut sess, l, "l", &format!("l = {}", lsrc));
     });
     // ---- strings
     let mut strings: Vec<String> = sigma_strings(if thorough { 3 } else { 2 });
@@ -468,6 +502,8 @@ pub fn run(ctx: &Ctx, replay: Option<&J>) -> i32 {
         }
         ctx.nontrivial(&subj);
         run_laws(ctx, &mut sess, &subj, string_laws(s));
+        let ch: Vec<RV> = s.chars().map(|c| RV::Str(c.to_string())).collect();
+        check_fractional_index(ctx, &mut sess, &ch, "s", &subj);
     });
     // ---- records
     let keys = ["a", "b", "a b", ""];
